@@ -3,7 +3,7 @@
      typing    every handle's representation matches its storage (class, liveness, control-block shape, window inside);
      counting  a storage's reference count is the number of handles holding it; a storage without control block has one holder;
                a dead storage has none (so: freed exactly once, after the last handle);
-     disjoint  the windows [ofs, ofs+cap) of shared BytesMut handles on one storage are pairwise disjoint;
+     disjoint  the non-empty windows [ofs, ofs+cap) of shared BytesMut handles on one storage are pairwise disjoint;
      fresh     identifiers below the counters.
    WF s := LWF (hs s) s.  Definitions and the map-level lemmas; the per-function lemmas are in HeapWFPrim.v / HeapWFOps.v. *)
 From stdpp Require Import gmap.
@@ -147,7 +147,7 @@ Definition st_ok (om : gmap positive owner) (k : positive) (st : storage) (n : n
 Definition mwin (x : handle) : option (positive * N * N) := match x with HM k ofs _ cap MArc => Some (k, ofs, cap) | _ => None end.
 Definition disj (HM : hmap) : Prop :=
   forall h1 h2 x1 x2 k o1 c1 o2 c2, h1 <> h2 -> HM !! h1 = Some x1 -> HM !! h2 = Some x2 ->
-    mwin x1 = Some (k, o1, c1) -> mwin x2 = Some (k, o2, c2) -> o1 + c1 <= o2 \/ o2 + c2 <= o1.
+    mwin x1 = Some (k, o1, c1) -> mwin x2 = Some (k, o2, c2) -> c1 = 0 \/ c2 = 0 \/ o1 + c1 <= o2 \/ o2 + c2 <= o1.
 
 Definition sfresh (s : hst) : Prop :=
   (forall p, is_Some (sts s !! xO p) -> (p < next_real s)%positive) /\ (forall p, is_Some (sts s !! xI p) -> (p < next_pseudo s)%positive) /\
